@@ -6,7 +6,8 @@ Driver glue for C50.
      alive   `-` or `,`-list of pids that are alive (every other pid is dead unless noperm)
      noperm  `-` or `,`-list of pids for which `kill` answers EPERM
      n       processes 0..n-1 are shown
-     events  `-` or `,`-list of `L<i>` (enter lock), `U<i>` (enter unlock), `S<i>` (one primitive), `X<i>` (crash)
+     events  `-` or `,`-list of `L<i>` (enter lock), `U<i>` (enter unlock), `S<i>` (one primitive), `X<i>` (crash),
+             `B<i>` (a new process is born with the dead pid i)
   → one snapshot per event joined by `|` (or `-`); snapshot = `<link>;<proc 0>;…;<proc n-1>`,
     proc = `<status>:<pc>:<locked>:<clean>:<last>`
 -/
@@ -25,7 +26,8 @@ def decEv (s : String) : Option Ev :=
     match (String.ofList ds).toNat? with
     | some i =>
       if c = 'L' then some (.lock i) else if c = 'U' then some (.unlock i)
-      else if c = 'S' then some (.step i) else if c = 'X' then some (.crash i) else none
+      else if c = 'S' then some (.step i) else if c = 'X' then some (.crash i)
+      else if c = 'B' then some (.spawn i) else none
     | none => none
   | [] => none
 
